@@ -96,10 +96,11 @@ theorem C04_try_catch_does_not_swallow (fuel : Nat) (c : Ctx) (tr : Val) (idx : 
   unfold recoverAt
   simp only [h0, hb, if_true]
 
-/-- `except__` is used up by its first error: a second error inside the handler is not caught by the
-same frame again (`recover_runtime_error` fails) -/
-theorem C04_except_once (c : Ctx) (fr : Frame) (handler : List Instr) (rest : List Frame)
-    (hf : c.frames = fr :: rest) (hb : fr.errB = some (.exceptB handler true)) (e : Bool) :
+/-- a handler is used up by its first error: once it has taken over, the frame holds no error behaviour any
+more, and a frame without one does not take an error (`recover_runtime_error` fails and changes nothing) —
+an error or a `throw` inside a handler block is never caught by that same handler again -/
+theorem C04_handler_once (c : Ctx) (fr : Frame) (rest : List Frame)
+    (hf : c.frames = fr :: rest) (hb : fr.errB = none) (e : Bool) :
     (recoverAt c e 0).2 = Recover.error ∧ (recoverAt c e 0).1 = c := by
   unfold recoverAt
   simp [hf, hb]
@@ -109,7 +110,7 @@ theorem C04_except_once (c : Ctx) (fr : Frame) (handler : List Instr) (rest : Li
 theorem C04_except_first (c : Ctx) (fr : Frame) (handler : List Instr) (rest : List Frame)
     (hf : c.frames = fr :: rest) (hb : fr.errB = some (.exceptB handler false)) (e : Bool) :
     ∃ fr', (recoverAt c e 0).1.frames = fr' :: rest ∧ fr'.code = handler ∧ fr'.pc = 0 ∧
-      fr'.errB = some (.exceptB handler true) ∧ (varsGet fr'.vars n!"_exception").isSome := by
+      fr'.errB = none ∧ (varsGet fr'.vars n!"_exception").isSome := by
   have hclear : ∀ (c0 : Ctx), c0.clearV.frames = c0.frames := by
     intro c0; unfold Ctx.clearV; split <;> rfl
   unfold recoverAt
